@@ -27,6 +27,29 @@ def mol_graph(m: G.Mol) -> nx.Graph:
     return graph_from_molecule(a, b)
 
 
+def shuffled_listing(g: nx.Graph, rng) -> nx.Graph:
+    """the same labelled graph with its nodes and edges inserted in another order (as the results of
+    relabel_nodes / canonicalize_molecule are)"""
+    h = nx.Graph()
+    order = list(g.nodes)
+    rng.shuffle(order)
+    for n in order:
+        h.add_node(n, **g.nodes[n])
+    es = list(g.edges(data=True))
+    rng.shuffle(es)
+    for a, b, d in es:
+        if rng.random() < 0.5:
+            a, b = b, a
+        h.add_edge(a, b, **d)
+    return h
+
+
+def any_listing(g: nx.Graph, rng) -> nx.Graph:
+    """half of the time the graph as graph_from_molecule lists it (labels = listing positions), half of the
+    time the same labelled graph listed in another order (as relabel_nodes / canonicalize_molecule produce)"""
+    return shuffled_listing(g, rng) if rng.random() < 0.5 else g
+
+
 def tucan_of(g: nx.Graph) -> str:
     return serialize_molecule(canonicalize_molecule(g))
 
@@ -61,9 +84,13 @@ def sizes(run, m: G.Mol):
     run.stats["size:" + ("1" if n == 1 else "2-5" if n <= 5 else "6-12" if n <= 12 else "13-30" if n <= 30 else "31+")] += 1
 
 
+THOROUGH = False
+
+
 def molecules(run, rng, count, max_n=22):
     for _ in range(count):
-        m = G.gen_mol(rng, max_n=max_n)
+        big = THOROUGH and rng.random() < 0.1
+        m = G.gen_mol(rng, max_n=max_n * 5 if big else max_n)
         sizes(run, m)
         yield m
 
@@ -114,7 +141,7 @@ def check_oracle_contract(run, base_form, logs, m, m2):
 def work_C01(run, rng, budget):
     nmol = 120 * budget
     for m in molecules(run, rng, nmol):
-        g = mol_graph(m)
+        g = any_listing(mol_graph(m), rng)
         c, s0, info0 = queue_pipeline_ops(run, g)
         if s0 is None:
             s0, err = safe(tucan_of, mol_graph(m))
@@ -125,7 +152,7 @@ def work_C01(run, rng, budget):
         base_form = oracle_form(info0)
         for _ in range(3):
             m2, perm = G.relabel(m, rng)
-            g2 = mol_graph(m2)
+            g2 = any_listing(mol_graph(m2), rng)
             n0 = len(R.ORACLE_LOG)
             s2, err = safe(tucan_of, g2)
             check_oracle_contract(run, base_form, R.ORACLE_LOG[n0:], m, m2)
@@ -181,7 +208,7 @@ def canon_maps(c: nx.Graph):
 
 def work_C04(run, rng, budget):
     for m in molecules(run, rng, 120 * budget):
-        g = mol_graph(m)
+        g = any_listing(mol_graph(m), rng)
         c, _, info0 = queue_pipeline_ops(run, g, want=("canon",))
         if c is None:
             c, err = safe(canonicalize_molecule, mol_graph(m))
@@ -195,7 +222,7 @@ def work_C04(run, rng, budget):
         for _ in range(3):
             m2, perm = G.relabel(m, rng)
             k0 = len(R.ORACLE_LOG)
-            c2, err = safe(canonicalize_molecule, mol_graph(m2))
+            c2, err = safe(canonicalize_molecule, any_listing(mol_graph(m2), rng))
             check_oracle_contract(run, base_form, R.ORACLE_LOG[k0:], m, m2)
             run.case(("C04", mol_repr(m), perm), m.n() >= 2 and perm != sorted(perm))
             if err is not None:
@@ -832,7 +859,8 @@ def attr_multiset(g):
 
 def work_C12(run, rng, budget):
     for m in molecules(run, rng, 120 * budget):
-        g = mol_graph(m)
+        g = any_listing(mol_graph(m), rng)
+        run.stats["listing_order:" + ("label" if list(g.nodes) == sorted(g.nodes) else "other")] += 1
         before = P.show_graph(g)
         ids_before = {n: id(d) for n, d in g.nodes(data=True)}
         line, real, info = R.op_canon(g)
@@ -903,7 +931,7 @@ def classes_by_tag(c):
 
 def work_C13(run, rng, budget):
     for m in molecules(run, rng, 120 * budget):
-        g = mol_graph(m)
+        g = any_listing(mol_graph(m), rng)
         line, real = R.op_partition(g, "inv")
         run.corr(line, real, "observable")
         p0, err = safe(partition_molecule_by_attribute, g, "invariant_code")
@@ -1006,23 +1034,6 @@ def work_C15(run, rng, budget):
 # =====================================================================================
 # C16
 # =====================================================================================
-
-def shuffled_listing(g: nx.Graph, rng) -> nx.Graph:
-    """the same labelled graph with its nodes and edges inserted in another order (as the results of
-    relabel_nodes / canonicalize_molecule are)"""
-    h = nx.Graph()
-    order = list(g.nodes)
-    rng.shuffle(order)
-    for n in order:
-        h.add_node(n, **g.nodes[n])
-    es = list(g.edges(data=True))
-    rng.shuffle(es)
-    for a, b, d in es:
-        if rng.random() < 0.5:
-            a, b = b, a
-        h.add_edge(a, b, **d)
-    return h
-
 
 def c16_inputs(run, rng, budget):
     for m in molecules(run, rng, 100 * budget, max_n=14):
